@@ -9,21 +9,43 @@ namespace SMD.C11
 
 /-- comparing an object with itself reports nothing, at every node, duplicates included -/
 theorem compare_self_empty (s : Schema) (fuel : Nat) (v : Value) (tr : TypeRef) (c : Cmp) :
-    cmpNode s fuel (some v) (some v) tr = .ok c → c.removed = [] ∧ c.modified = [] ∧ c.added = [] := sorry
+    cmpNode s fuel (some v) (some v) tr = .ok c → c.removed = [] ∧ c.modified = [] ∧ c.added = [] :=
+  cmpNode_self s fuel (some v) tr c
 
 theorem compareTV_self_isSame (s : Schema) (tv : TV) (c : Comparison) :
-    compareTV s tv tv = .ok c → c.isSame = true := sorry
+    compareTV s tv tv = .ok c → c.isSame = true := by
+  unfold compareTV
+  split
+  · intro h; cases h
+  · split
+    · next c' hc' =>
+      intro h; cases h
+      obtain ⟨h1, h2, h3⟩ := cmpNode_self s _ _ _ _ hc'
+      simp only [Comparison.isSame, h1, h2, h3]
+      rfl
+    · intro h; cases h
+    · intro h; cases h
 
 /-- comparing nothing with X never reports removed or modified fields (everything is added) -/
 theorem compare_from_nothing_only_adds (s : Schema) (fuel : Nat) (v : Value) (tr : TypeRef) (c : Cmp) :
-    cmpNode s fuel none (some v) tr = .ok c → c.removed = [] ∧ c.modified = [] := sorry
+    cmpNode s fuel none (some v) tr = .ok c → c.removed = [] ∧ c.modified = [] :=
+  cmpNode_left_none s fuel (some v) tr c
 
 /-- …and symmetrically comparing X with nothing only removes -/
 theorem compare_to_nothing_only_removes (s : Schema) (fuel : Nat) (v : Value) (tr : TypeRef) (c : Cmp) :
-    cmpNode s fuel (some v) none tr = .ok c → c.added = [] ∧ c.modified = [] := sorry
+    cmpNode s fuel (some v) none tr = .ok c → c.added = [] ∧ c.modified = [] :=
+  cmpNode_right_none s fuel (some v) tr c
 
 /-- the three sets of a comparison are well-formed field sets -/
 theorem compare_sets_wf (s : Schema) (l r : TV) (c : Comparison) :
-    compareTV s l r = .ok c → c.removed.wf = true ∧ c.modified.wf = true ∧ c.added.wf = true := sorry
+    compareTV s l r = .ok c → c.removed.wf = true ∧ c.modified.wf = true ∧ c.added.wf = true := by
+  unfold compareTV
+  split
+  · intro h; cases h
+  · split
+    · intro h; cases h
+      exact ⟨SetTrie.wf_ofPaths _, SetTrie.wf_ofPaths _, SetTrie.wf_ofPaths _⟩
+    · intro h; cases h
+    · intro h; cases h
 
 end SMD.C11
